@@ -401,3 +401,7 @@ fn check_opcode(exchange: &Exchange<'_>, opcode: OpCode) -> Result<(), Error> {
         Err(ErrorCode::Invalid.into())
     }
 }
+
+#[cfg(any(kani, verif_replay))]
+#[path = "/verif/kani/sc.rs"]
+pub(crate) mod verif_kani_sc;
